@@ -87,14 +87,87 @@ func thresholdChoices(p uint64) ([]uint64, []*big.Float) {
 	return []uint64{0, p - 1, p, math.MaxUint64}, []*big.Float{below, zero, zero, above}
 }
 
-func halvingChoices(nbits int) ([]uint64, []*big.Float) {
+// unowned is returned when the harness cannot establish how the code uses a
+// random word (so exact weights cannot be assigned). It is never a violation:
+// the check then reports exhaustive:false for that configuration.
+type unowned struct{ why string }
+
+// signature runs Add(v) from st with the scripted words and returns a string
+// identifying what happened (whether more entropy was requested and the
+// resulting state).
+func signature(c *cfg, st state, v int, words []uint64) string {
+	src := &script{words: words}
+	ctr := newCounter(c.Size, src)
+	setState(ctr, st.buf, st.p)
+	ctr.Add(v)
+	buf, p := getState(ctr)
+	sort.Ints(buf)
+	return fmt.Sprintf("%v|%d|%v/%x", src.short, src.used, buf, p)
+}
+
+// influence determines which bits of the random word at position len(prefix)
+// can change the outcome of Add(v) from st: a bit is influential if flipping
+// it changes the outcome from one of four base words. (The code is expected to
+// spend one bit per buffered element; which bits is left to it.)
+func influence(c *cfg, st state, v int, prefix []uint64) []uint {
+	var bitsUsed []uint
+	bases := []uint64{0, ^uint64(0), 0xAAAAAAAAAAAAAAAA, 0x5555555555555555}
+	for b := uint(0); b < 64; b++ {
+		for _, base := range bases {
+			w0 := append(append([]uint64{}, prefix...), base)
+			w1 := append(append([]uint64{}, prefix...), base^(1<<b))
+			if signature(c, st, v, w0) != signature(c, st, v, w1) {
+				bitsUsed = append(bitsUsed, b)
+				break
+			}
+		}
+	}
+	return bitsUsed
+}
+
+var (
+	infMu    sync.Mutex
+	infCache = map[string][]uint{}
+)
+
+// cachedInfluence probes once per (size, order, number of buffered elements):
+// which bits a pass consumes depends on how many elements it visits.
+func cachedInfluence(c *cfg, st state, v int, prefix []uint64, nb int) []uint {
+	key := fmt.Sprintf("%d/%s/%d", c.Size, c.Order, nb)
+	infMu.Lock()
+	got, ok := infCache[key]
+	infMu.Unlock()
+	if ok {
+		return got
+	}
+	got = influence(c, st, v, prefix)
+	infMu.Lock()
+	infCache[key] = got
+	infMu.Unlock()
+	return got
+}
+
+// halvingChoices enumerates every pattern of the influential bits (uniform
+// weights); the other bits are all zero in half of the words and all one in
+// the other half, so a dependence the probe missed shows up as a lost or
+// gained outcome rather than silently.
+func halvingChoices(bitsUsed []uint) ([]uint64, []*big.Float) {
 	var ws []uint64
 	var rs []*big.Float
-	w := pow2(-nbits)
-	for b := uint64(0); b < 1<<uint(nbits); b++ {
-		word := b
-		if b%2 == 1 {
-			word |= ^uint64(0) << uint(nbits) // the unused high bits must not matter
+	w := pow2(-len(bitsUsed))
+	var mask uint64
+	for _, b := range bitsUsed {
+		mask |= 1 << b
+	}
+	for pat := uint64(0); pat < 1<<uint(len(bitsUsed)); pat++ {
+		var word uint64
+		for i, b := range bitsUsed {
+			if pat&(1<<uint(i)) != 0 {
+				word |= 1 << b
+			}
+		}
+		if pat%2 == 1 {
+			word |= ^mask
 		}
 		ws = append(ws, word)
 		rs = append(rs, w)
@@ -104,7 +177,7 @@ func halvingChoices(nbits int) ([]uint64, []*big.Float) {
 
 // transitions enumerates every outcome of Add(v) from st on the real code.
 // truncated is the probability mass cut off by the bound on extra words.
-func transitions(c *cfg, st state, v int) (outs []outcome, truncated *big.Float, f *mc.Failure) {
+func transitions(c *cfg, st state, v int) (outs []outcome, truncated *big.Float, f *mc.Failure, notOwned *unowned) {
 	truncated = new(big.Float)
 	merged := map[string]*outcome{}
 	// A halving pass visits the buffer as it is after v was inserted; a
@@ -113,9 +186,13 @@ func transitions(c *cfg, st state, v int) (outs []outcome, truncated *big.Float,
 	if !has(st.buf, v) {
 		nb++
 	}
+	var own *unowned
+	var oddBits string
+	var runs int64
+	_ = oddBits
 	var rec func(words []uint64, weight *big.Float, depth int)
 	rec = func(words []uint64, weight *big.Float, depth int) {
-		if f != nil {
+		if f != nil || own != nil {
 			return
 		}
 		src := &script{words: words}
@@ -133,6 +210,20 @@ func transitions(c *cfg, st state, v int) (outs []outcome, truncated *big.Float,
 			var rs []*big.Float
 			if pos == 0 && st.p < math.MaxUint64 {
 				ws, rs = thresholdChoices(st.p)
+				// The keep test must be a threshold comparison: words on the same
+				// side of p behave alike. Otherwise exact weights are unknown.
+				mid := func(a, b uint64) uint64 { return a/2 + b/2 }
+				lo := []uint64{0, mid(0, st.p), st.p / 3}
+				hi := []uint64{math.MaxUint64, mid(st.p, math.MaxUint64), st.p + (math.MaxUint64-st.p)/3 + 1}
+				for _, side := range [][]uint64{lo, hi} {
+					ref := signature(c, st, v, append(append([]uint64{}, words...), side[0]))
+					for _, w := range side[1:] {
+						if signature(c, st, v, append(append([]uint64{}, words...), w)) != ref {
+							own = &unowned{fmt.Sprintf("the keep test of Add(%d) from %s is not a comparison with the threshold: words %x and %x on the same side behave differently", v, st.key(), side[0], w)}
+							return
+						}
+					}
+				}
 			} else {
 				passes := pos
 				if st.p < math.MaxUint64 {
@@ -147,7 +238,22 @@ func transitions(c *cfg, st state, v int) (outs []outcome, truncated *big.Float,
 					truncated.Add(truncated, bound)
 					return
 				}
-				ws, rs = halvingChoices(nb)
+				inf := cachedInfluence(c, st, v, words, nb)
+				if len(inf) > 10 {
+					own = &unowned{fmt.Sprintf("a random word of a halving pass influences the outcome through %d bits (Add(%d) from %s)", len(inf), v, st.key())}
+					return
+				}
+				if len(inf) != nb && own == nil {
+					// one fair bit per buffered element is what the algorithm needs;
+					// anything else is enumerated all the same, uniformly
+					oddBits = fmt.Sprintf("%d influential bits for %d buffered elements", len(inf), nb)
+				}
+				ws, rs = halvingChoices(inf)
+			}
+			runs += int64(len(ws))
+			if runs > 500000 {
+				own = &unowned{fmt.Sprintf("more than 500000 executions for one transition (Add(%d) from %s)", v, st.key())}
+				return
 			}
 			for i := range ws {
 				rec(append(append([]uint64{}, words...), ws[i]), new(big.Float).Mul(weight, rs[i]), depth+1)
@@ -185,7 +291,7 @@ func transitions(c *cfg, st state, v int) (outs []outcome, truncated *big.Float,
 	for _, k := range keys {
 		outs = append(outs, *merged[k])
 	}
-	return outs, truncated, f
+	return outs, truncated, f, own
 }
 
 // negligible: contributions below 2^-36 are dropped and accounted as slack.
@@ -212,10 +318,17 @@ func has(buf []int, v int) bool {
 
 func invP(k int) *big.Float { return pow2(k) }
 
+// stepUnowned marks a "failure" that only says the harness could not own the
+// randomness; it is reported as exhaustive:false, never as a violation.
+const stepUnowned = -99
+
+func isUnowned(f *mc.Failure) bool { return f != nil && f.Step == stepUnowned }
+
 // explorer carries the memoised transition function of one configuration.
 type explorer struct {
 	c       *cfg
 	workers int
+	gaveUp  bool
 	mu      sync.Mutex
 	memo    map[string][]outcome
 	trunc   map[string]*big.Float
@@ -244,7 +357,10 @@ func (e *explorer) step(st state, v int) ([]outcome, *big.Float, *mc.Failure) {
 		return o, t, nil
 	}
 	e.mu.Unlock()
-	outs, tr, f := transitions(e.c, st, v)
+	outs, tr, f, own := transitions(e.c, st, v)
+	if own != nil {
+		return nil, nil, &mc.Failure{Step: stepUnowned, Msg: own.why}
+	}
 	if f != nil {
 		return nil, nil, f
 	}
@@ -335,6 +451,9 @@ func (e *explorer) extend(n *node, v int) (*node, *mc.Failure) {
 	}
 	for _, en := range n.dist {
 		outs, tr, f := e.step(en.st, v)
+		if isUnowned(f) {
+			return nil, f
+		}
 		if f != nil {
 			f.Step = i
 			return nil, f
@@ -393,6 +512,9 @@ func (e *explorer) checkStream(stream []int) *mc.Failure {
 	n := rootNode()
 	for _, v := range stream {
 		nx, f := e.extend(n, v)
+		if isUnowned(f) {
+			return nil
+		}
 		if f != nil {
 			return f
 		}
@@ -410,8 +532,16 @@ func (e *explorer) walk(r *mc.Run, n *node, streams, above *int64) {
 		return
 	}
 	for v := 0; v <= used && v < e.c.Values; v++ {
+		if r.Expired() {
+			r.NotExhaustive("tier budget reached")
+			return
+		}
 		nx, f := e.extend(n, v)
 		atomic.AddInt64(streams, 1)
+		if isUnowned(f) {
+			e.giveUp(r, f.Msg)
+			return
+		}
 		if f != nil {
 			r.Violation(mc.Case{Harness: "cvm", Trace: mc.J(tcase{Cfg: *e.c, Stream: append(append([]int(nil), n.stream...), v)}), Msg: f.Msg, Step: f.Step})
 			continue // extensions of a failing prefix fail for the same reason
@@ -468,6 +598,17 @@ func resetFrom(size int, st state) *mc.Failure {
 		return mc.Failf(0, "after Reset from state %s, adding one value twice gives Count=%d", st.key(), ctr.Count())
 	}
 	return nil
+}
+
+// giveUp records (once) that this configuration could not be decided.
+func (e *explorer) giveUp(r *mc.Run, why string) {
+	e.mu.Lock()
+	first := !e.gaveUp
+	e.gaveUp = true
+	e.mu.Unlock()
+	if first {
+		r.NotExhaustive(fmt.Sprintf("size %d, order %s: the harness cannot assign exact weights: %s", e.c.Size, e.c.Order, why))
+	}
 }
 
 func newExplorer(c *cfg) *explorer {
@@ -560,6 +701,10 @@ func main() {
 						for v := 0; v <= len(n.seen) && v < c.Values; v++ {
 							nx, f := e.extend(n, v)
 							ns++
+							if isUnowned(f) {
+								e.giveUp(r, f.Msg)
+								continue
+							}
 							if f != nil {
 								r.Violation(mc.Case{Harness: "cvm", Trace: mc.J(tcase{Cfg: *c, Stream: append(append([]int(nil), n.stream...), v)}), Msg: f.Msg, Step: f.Step})
 								continue
